@@ -76,6 +76,8 @@ class Base:
                     return z3.RealVal(x)
                 if want is not None and want.kind == 'bool':
                     return z3.BoolVal(x != 0)
+                if want is not None and want.kind == 'optint':
+                    return OPTINT.mk(z3.BoolVal(True), z3.IntVal(x))
                 return z3.IntVal(x)
             if isinstance(x, float):
                 return z3.RealVal(repr(x))
